@@ -7,9 +7,9 @@ import (
 
 func init() { factFns["C14"] = factsC14 }
 
-// callSeq lists, in source order, the calls of a function whose rendered callee is in keep,
+// c14CallSeq lists, in source order, the calls of a function whose rendered callee is in keep,
 // together with `defer`.
-func callSeq(rel, recv, name string, keep map[string]string) []string {
+func c14CallSeq(rel, recv, name string, keep map[string]string) []string {
 	f, fd := funcDecl(rel, recv, name)
 	if fd == nil {
 		return []string{"<missing " + name + ">"}
@@ -23,8 +23,8 @@ func callSeq(rel, recv, name string, keep map[string]string) []string {
 	return out
 }
 
-// deferred: the calls that appear in defer statements of a function
-func deferred(rel, recv, name string) []string {
+// c14Deferred: the calls that appear in defer statements of a function
+func c14Deferred(rel, recv, name string) []string {
 	f, fd := funcDecl(rel, recv, name)
 	var out []string
 	if fd != nil {
@@ -47,12 +47,12 @@ func factsC14() {
 		"o.propertiesMutex.RLock": "RLock", "o.propertiesMutex.RUnlock": "RUnlock",
 	}
 	// the order validate ; save ; notify and which of them run under the mutex
-	emitStrList("f_setproperty_seq", callSeq("bus/object.go", "objectImpl", "SetProperty", keep))
-	emitStrList("f_updateproperty_seq", callSeq("bus/object.go", "stubObject", "UpdateProperty", keep))
-	emitStrList("f_saveproperty_seq", callSeq("bus/object.go", "objectImpl", "saveProperty", keep))
-	emitStrList("f_saveproperty_defer", deferred("bus/object.go", "objectImpl", "saveProperty"))
-	emitStrList("f_property_seq", callSeq("bus/object.go", "objectImpl", "Property", keep))
-	emitStrList("f_property_defer", deferred("bus/object.go", "objectImpl", "Property"))
+	c16EmitStrList("f_setproperty_seq", c14CallSeq("bus/object.go", "objectImpl", "SetProperty", keep))
+	c16EmitStrList("f_updateproperty_seq", c14CallSeq("bus/object.go", "stubObject", "UpdateProperty", keep))
+	c16EmitStrList("f_saveproperty_seq", c14CallSeq("bus/object.go", "objectImpl", "saveProperty", keep))
+	c16EmitStrList("f_saveproperty_defer", c14Deferred("bus/object.go", "objectImpl", "saveProperty"))
+	c16EmitStrList("f_property_seq", c14CallSeq("bus/object.go", "objectImpl", "Property", keep))
+	c16EmitStrList("f_property_defer", c14Deferred("bus/object.go", "objectImpl", "Property"))
 	emitStr("f_saveproperty_text", normText("bus/object.go", "objectImpl", "saveProperty"))
 	emitStr("f_property_text", normText("bus/object.go", "objectImpl", "Property"))
 	emitStr("f_signal_updateproperty_text", normText("bus/signal.go", "signalHandler", "UpdateProperty"))
@@ -61,16 +61,16 @@ func factsC14() {
 	emitStr("f_bomb_update_text", normText("examples/space/space_stub_gen.go", "stubBomb", "UpdateDelay"))
 	g := normText("examples/space/space_stub_gen.go", "proxyBomb", "GetDelay")
 	emitBool("f_bomb_getter_checks_signature", strings.Contains(g, `sig := "" if sig != s { return ret, fmt.Errorf("", s, sig) }`))
-	emitStr("f_bomb_meta_text", rawText("examples/space/space_stub_gen.go", "stubBomb", "metaObject"))
+	emitStr("f_bomb_meta_text", c14RawText("examples/space/space_stub_gen.go", "stubBomb", "metaObject"))
 	// the generator templates behind them
-	emitBool("f_stub_template_decodes_declared_type", strings.Contains(rawText("meta/stub/stub.go", "", "generateStubPropertyCallback"), `property.Type().Unmarshal("buf")`))
-	emitBool("f_proxy_template_checks_signature", strings.Contains(rawText("meta/idl/proxy.go", "", "generatePropertyGet"), `if sig != s {`))
-	emitN("f_action_property", actionOf("p.Property"))
-	emitN("f_action_setproperty", actionOf("p.SetProperty"))
+	emitBool("f_stub_template_decodes_declared_type", strings.Contains(c14RawText("meta/stub/stub.go", "", "generateStubPropertyCallback"), `property.Type().Unmarshal("buf")`))
+	emitBool("f_proxy_template_checks_signature", strings.Contains(c14RawText("meta/idl/proxy.go", "", "generatePropertyGet"), `if sig != s {`))
+	emitN("f_action_property", c14ActionOf("p.Property"))
+	emitN("f_action_setproperty", c14ActionOf("p.SetProperty"))
 }
 
-// rawText: the function as written, white space collapsed, literals kept
-func rawText(rel, recv, name string) string {
+// c14RawText: the function as written, white space collapsed, literals kept
+func c14RawText(rel, recv, name string) string {
 	f, fd := funcDecl(rel, recv, name)
 	if fd == nil {
 		return "<missing " + name + ">"
@@ -78,7 +78,7 @@ func rawText(rel, recv, name string) string {
 	return strings.Join(strings.Fields(exprText(f.fset, fd)), " ")
 }
 
-func actionOf(method string) uint64 {
+func c14ActionOf(method string) uint64 {
 	f, fd := funcDecl("bus/object_stub_gen.go", "stubObject", "Receive")
 	var n uint64
 	if fd == nil {
